@@ -30,4 +30,9 @@ long   vf_locks_held(void);                          /* harness-internal error (
 #ifdef __cplusplus
 }
 #endif
+#ifdef VF_CBMC
+/* engine A: obligations are CBMC assertions (the description must be a literal) */
+#define vf_check(label, c) __CPROVER_assert((c), label)
+#define vf_close(label, impl, ref, rtol, atol) __CPROVER_assert((impl) == (ref), label)
+#endif
 #endif
